@@ -5,7 +5,8 @@
 //! spec / dump = ff|infos|filters|formats|alts|contigs|others|samples
 //!   map  = hexid,num,ty,desc,len,md5,url,idx,others   (num - A R G . n; ty - I F B C S; desc - or D<hex>;
 //!          md5/url - or X<hex>; others ~ or hexk=hexv joined by '+'), maps joined by ';', ~ = none
-//!   others (unstructured) = hexkey=hexv+hexv joined by ';'; samples = hex joined by ';'
+//!   others = groups joined by ';': unstructured hexkey=hexv+hexv, structured hexkey=@m+m with
+//!          m = hexidtag.hexid.fields (fields ~ or hexk:hexv joined by '/'); samples = hex joined by ';'
 #![allow(dead_code)]
 
 use super::*;
@@ -13,7 +14,7 @@ use noodles_vcf::header::{
     FileFormat,
     record::value::{
         Collection, Map,
-        map::{AlternativeAllele, Contig, Filter, Format, Info},
+        map::{AlternativeAllele, Contig, Filter, Format, Info, Other},
     },
 };
 
@@ -38,8 +39,47 @@ pub struct HHeader {
     pub formats: Vec<HMap>,
     pub alts: Vec<HMap>,
     pub contigs: Vec<HMap>,
-    pub others: Vec<(String, Vec<String>)>,
+    pub others: Vec<(String, Coll)>,
     pub samples: Vec<String>,
+}
+
+/// Map<Other>: the identifier tag (ID; Child / Derived of a parsed pre-4.3 PEDIGREE), the ID, the fields
+#[derive(Clone, Debug, Default, PartialEq)]
+pub struct OMap {
+    pub idtag: String,
+    pub id: String,
+    pub fields: Vec<(String, String)>,
+}
+
+#[derive(Clone, Debug, PartialEq)]
+pub enum Coll {
+    U(Vec<String>),
+    S(Vec<OMap>),
+}
+
+fn omap_str(m: &OMap) -> String {
+    let f = if m.fields.is_empty() { "~".to_string() } else { m.fields.iter().map(|(k, v)| format!("{}:{}", hx(k), hx(v))).collect::<Vec<_>>().join("/") };
+    format!("{}.{}.{}", hx(&m.idtag), hx(&m.id), f)
+}
+fn omap_parse(s: &str) -> OMap {
+    let p: Vec<&str> = s.split('.').collect();
+    OMap {
+        idtag: uh(p[0]),
+        id: uh(p[1]),
+        fields: if p[2] == "~" { vec![] } else { p[2].split('/').map(|kv| { let (k, v) = kv.split_once(':').unwrap(); (uh(k), uh(v)) }).collect() },
+    }
+}
+fn coll_str(c: &Coll) -> String {
+    match c {
+        Coll::U(vs) => vs.iter().map(|v| hx(v)).collect::<Vec<_>>().join("+"),
+        Coll::S(ms) => format!("@{}", ms.iter().map(omap_str).collect::<Vec<_>>().join("+")),
+    }
+}
+fn coll_parse(s: &str) -> Coll {
+    match s.strip_prefix('@') {
+        Some(r) => Coll::S(if r.is_empty() { vec![] } else { r.split('+').map(omap_parse).collect() }),
+        None => Coll::U(if s.is_empty() { vec![] } else { s.split('+').map(uh).collect() }),
+    }
 }
 
 fn hx(s: &str) -> String {
@@ -101,7 +141,7 @@ pub fn header_str(h: &HHeader) -> String {
     let others = if h.others.is_empty() {
         "~".to_string()
     } else {
-        h.others.iter().map(|(k, vs)| format!("{}={}", hx(k), vs.iter().map(|v| hx(v)).collect::<Vec<_>>().join("+"))).collect::<Vec<_>>().join(";")
+        h.others.iter().map(|(k, c)| format!("{}={}", hx(k), coll_str(c))).collect::<Vec<_>>().join(";")
     };
     let samples = if h.samples.is_empty() { "~".to_string() } else { h.samples.iter().map(|s| hx(s)).collect::<Vec<_>>().join(";") };
     [format!("{}.{}", h.ff.0, h.ff.1), maps_str(&h.infos), maps_str(&h.filters), maps_str(&h.formats), maps_str(&h.alts), maps_str(&h.contigs), others, samples].join("|")
@@ -117,7 +157,7 @@ pub fn header_parse(s: &str) -> HHeader {
         formats: maps_parse(p[3]),
         alts: maps_parse(p[4]),
         contigs: maps_parse(p[5]),
-        others: if p[6] == "~" { vec![] } else { p[6].split(';').map(|g| { let (k, vs) = g.split_once('=').unwrap(); (uh(k), vs.split('+').map(uh).collect()) }).collect() },
+        others: if p[6] == "~" { vec![] } else { p[6].split(';').map(|g| { let (k, c) = g.split_once('=').unwrap(); (uh(k), coll_parse(c)) }).collect() },
         samples: if p[7] == "~" { vec![] } else { p[7].split(';').map(uh).collect() },
     }
 }
@@ -227,9 +267,26 @@ pub fn build(h: &HHeader) -> Option<vcf::Header> {
         set_others!(x, &m.others);
         b = b.add_contig(m.id.clone(), x);
     }
-    for (k, vs) in &h.others {
-        for v in vs {
-            b = b.insert(k.parse().ok()?, noodles_vcf::header::record::Value::String(v.clone())).ok()?;
+    for (k, c) in &h.others {
+        match c {
+            Coll::U(vs) => {
+                for v in vs {
+                    b = b.insert(k.parse().ok()?, noodles_vcf::header::record::Value::String(v.clone())).ok()?;
+                }
+            }
+            Coll::S(ms) => {
+                for m in ms {
+                    // the identifier tag is crate-private: only ID can be built
+                    if m.idtag != "ID" {
+                        return None;
+                    }
+                    let mut x = Map::<Other>::builder();
+                    for (fk, fv) in &m.fields {
+                        x = x.insert(fk.parse().ok()?, fv.clone());
+                    }
+                    b = b.insert(k.parse().ok()?, noodles_vcf::header::record::Value::Map(m.id.clone(), x.build().ok()?)).ok()?;
+                }
+            }
         }
     }
     for s in &h.samples {
@@ -238,7 +295,25 @@ pub fn build(h: &HHeader) -> Option<vcf::Header> {
     Some(b.build())
 }
 
-/// None = the header holds something the model does not cover (structured other records)
+/// the (crate-private) identifier tag of a structured map, read off what the writer emits for it
+fn id_tag_of(key: &str, id: &str, m: &Map<Other>) -> Option<String> {
+    let mut h = vcf::Header::default();
+    let k: noodles_vcf::header::record::key::Other = key.parse().ok()?;
+    h.other_records_mut().insert(k, Collection::Structured([(id.to_string(), m.clone())].into_iter().collect()));
+    let mut w = vcf::io::Writer::new(Vec::new());
+    w.write_header(&h).ok()?;
+    let text = w.into_inner();
+    let pre = format!("##{key}=<");
+    for l in text.split(|&b| b == b'\n') {
+        if let Some(r) = l.strip_prefix(pre.as_bytes()) {
+            let i = r.iter().position(|&b| b == b'=')?;
+            return String::from_utf8(r[..i].to_vec()).ok();
+        }
+    }
+    None
+}
+
+/// None = the header holds something the dump cannot express
 pub fn unbuild(h: &vcf::Header) -> Option<HHeader> {
     use noodles_vcf::header::record::value::map::{format, info};
     let of = |it: &mut dyn Iterator<Item = (String, String)>| it.collect::<Vec<_>>();
@@ -271,8 +346,18 @@ pub fn unbuild(h: &vcf::Header) -> Option<HHeader> {
     }
     for (k, c) in h.other_records() {
         match c {
-            Collection::Unstructured(vs) => out.others.push((k.as_ref().to_string(), vs.clone())),
-            Collection::Structured(_) => return None,
+            Collection::Unstructured(vs) => out.others.push((k.as_ref().to_string(), Coll::U(vs.clone()))),
+            Collection::Structured(ms) => {
+                let mut l = vec![];
+                for (id, m) in ms {
+                    l.push(OMap {
+                        idtag: id_tag_of(k.as_ref(), id, m)?,
+                        id: id.clone(),
+                        fields: m.other_fields().iter().map(|(fk, fv)| (fk.as_ref().to_string(), fv.clone())).collect(),
+                    });
+                }
+                out.others.push((k.as_ref().to_string(), Coll::S(l)));
+            }
         }
     }
     out.samples = h.sample_names().iter().cloned().collect();
@@ -283,17 +368,6 @@ fn read_text(t: &[u8]) -> R<vcf::Header> {
     g(|| {
         let mut r = vcf::io::Reader::new(t);
         r.read_header().map_err(|_| ())
-    })
-}
-
-/// the textual criterion of NV.Vcf.Header.unmodelled_lines
-pub fn unmodelled(lines: &[&[u8]]) -> bool {
-    lines.iter().any(|l| {
-        let Some(r) = l.strip_prefix(b"##") else { return false };
-        let Some(i) = r.iter().position(|&b| b == b'=') else { return false };
-        let (k, v) = (&r[..i], &r[i + 1..]);
-        let std = [&b"fileformat"[..], b"INFO", b"FILTER", b"FORMAT", b"ALT", b"contig"].contains(&k);
-        !std && (k == b"META" || k == b"PEDIGREE" || v.first() == Some(&b'<'))
     })
 }
 
@@ -327,23 +401,34 @@ pub fn run_hw(c: &Case) -> Obs {
     if matches!(r, R::Panic) {
         return Obs::fail("Panic", "hw-parser-panic", &c.args[0]);
     }
-    let raw_lines: Vec<&[u8]> = body.split(|&b| b == b'\n').collect();
-    let d = if unmodelled(&raw_lines) { "U".to_string() } else { match dump_of(&r) { Some(d) => d, None => return Obs::fail("-", "hw-structured-other-outside-criterion", &c.args[0]) } };
+    let d = match dump_of(&r) { Some(d) => d, None => return Obs::fail("-", "hw-parsed-header-not-dumpable", &c.args[0]) };
     let obs = format!("{}|{d}", lines.join(","));
     let verdict = if !valid {
         Ok(())
     } else {
         match &r {
             R::Ok(h2) if *h2 == h => Ok(()),
-            R::Ok(_) => Err(("hw-header-roundtrip-differs".to_string(), String::from_utf8_lossy(&text).replace('\n', "\\n"))),
+            R::Ok(_) => Err((if meta_values_list_before_43(&spec) { "header-meta-values-list-before-4.3-unparsable" } else { "hw-header-roundtrip-differs" }.to_string(), String::from_utf8_lossy(&text).replace('\n', "\\n"))),
             _ => {
                 let local = spec.formats.iter().any(|m| matches!(m.num.as_deref(), Some("LA" | "LR" | "LG" | "P" | "M")));
-                let tag = if local { "header-format-number-la-lr-lg-p-m-unparsable" } else { "hw-written-header-unparsable" };
+                let meta_list = meta_values_list_before_43(&spec);
+                // the META class first: the FORMAT Number class is repaired (3f7219b), its tag stays for a recurrence
+                let tag = if meta_list { "header-meta-values-list-before-4.3-unparsable" } else if local { "header-format-number-la-lr-lg-p-m-unparsable" } else { "hw-written-header-unparsable" };
                 Err((tag.to_string(), String::from_utf8_lossy(&text).replace('\n', "\\n")))
             }
         }
     };
     Obs::ok(obs, true).with_verdict(verdict)
+}
+
+/// a META map with a Values=[a, b] list (written raw) under a file format before 4.3, where the
+/// parser reads Values as an ordinary raw value that ends at the first ','
+pub fn meta_values_list_before_43(h: &HHeader) -> bool {
+    h.ff < (4, 3)
+        && h.others.iter().any(|(k, c)| {
+            k == "META"
+                && matches!(c, Coll::S(ms) if ms.iter().any(|m| m.fields.iter().any(|(fk, fv)| fk == "Values" && fv.starts_with('[') && (fv.contains(',') || fv.contains('>')))))
+        })
 }
 
 pub fn run_hp(c: &Case) -> Obs {
@@ -357,13 +442,26 @@ pub fn run_hp(c: &Case) -> Obs {
     if matches!(r, R::Panic) {
         return Obs::fail("Panic", "hp-parser-panic", &c.args[0]);
     }
-    let raw_lines: Vec<&[u8]> = lines.iter().map(|l| &l[..]).collect();
-    if unmodelled(&raw_lines) {
-        return Obs::ok("U", false);
-    }
+    // a parsed header is written back by the real writer (ties the writer model to parsed values,
+    // incl. the pre-4.3 PEDIGREE identifier tags that the typed API cannot build)
+    let rewritten = match &r {
+        R::Ok(h) => match g(|| {
+            let mut w = vcf::io::Writer::new(Vec::new());
+            w.write_header(h).map_err(|_| ())?;
+            Ok(w.into_inner())
+        }) {
+            R::Ok(t) => {
+                let body = if t.ends_with(b"\n") { &t[..t.len() - 1] } else { &t[..] };
+                format!("|{}", body.split(|&b| b == b'\n').map(hex).collect::<Vec<_>>().join(","))
+            }
+            R::Err => "|WErr".to_string(),
+            R::Panic => return Obs::fail("Panic", "hp-writer-panic", &c.args[0]),
+        },
+        _ => String::new(),
+    };
     match dump_of(&r) {
-        Some(d) => Obs::ok(d, true),
-        None => Obs::fail("-", "hp-structured-other-outside-criterion", &c.args[0]),
+        Some(d) => Obs::ok(format!("{d}{rewritten}"), true),
+        None => Obs::fail("-", "hp-parsed-header-not-dumpable", &c.args[0]),
     }
 }
 
@@ -380,6 +478,40 @@ const OKEYS_ODD: &[&str] = &["a=b", "a,b", "", "k>"];
 const UKEYS: &[&str] = &["fileDate", "source", "reference", "phasing", "note", "x"];
 const UVALS: &[&str] = &["20260925", "prog v1.2 --opt=a,b <x>", "file:///seq/ref.fa", "partial", "a=b", "x", " ", "<ID=1>", "<x>", "<", "", "<ID=a,Description=\"d\">"];
 const SAMPLES: &[&str] = &["NA00001", "s 1", "sample,2", "\u{e9}", "s0", "a=b", "X", "FORMAT", ""];
+
+const SKEYS: &[&str] = &["META", "PEDIGREE", "SAMPLE", "assembly2", "PROJECT"];
+const SFIELDS: &[&str] = &["Father", "Mother", "Original", "Name_0", "Assay", "Description", "Genomes", "Mixture"];
+const META_VALUES: &[&str] = &["[WholeGenome, Exome]", "[x]", "[]", "plain", "[a>b, \"q\"]"];
+const META_VALUES_ODD: &[&str] = &["[a", "a,b", "[a]b", "", "\"q\"", "[a],[b]", "]"];
+
+fn gen_omap(rng: &mut Rng, key: &str, id: String, odd: bool) -> OMap {
+    let mut fields: Vec<(String, String)> = vec![];
+    if key == "META" {
+        if rng.chance(2, 3) {
+            fields.push(("Type".into(), if odd && rng.chance(1, 4) { "a,b".into() } else { rng.pick(&["String", "Integer", "x y"]).to_string() }));
+        }
+        if rng.chance(2, 3) {
+            fields.push(("Number".into(), if odd && rng.chance(1, 4) { ">".into() } else { rng.pick(&[".", "1", "A"]).to_string() }));
+        }
+        if rng.chance(2, 3) {
+            fields.push(("Values".into(), if odd && rng.chance(1, 2) { rng.pick(META_VALUES_ODD).to_string() } else { rng.pick(META_VALUES).to_string() }));
+        }
+        if rng.chance(1, 3) && !fields.is_empty() {
+            fields.swap_remove(0);
+        }
+    }
+    let n = *rng.pick(&[0usize, 1, 2, 3]);
+    for k in pick_distinct(rng, n, SFIELDS) {
+        fields.push((k, rng.pick(HSTR).to_string()));
+    }
+    if odd && rng.chance(1, 3) {
+        fields.push((rng.pick(&["a=b", "a,b", "", "k>", ">k", "Child", "Derived", "IDX"]).to_string(), rng.pick(HSTR).to_string()));
+    }
+    if rng.chance(1, 4) {
+        fields.reverse();
+    }
+    OMap { idtag: "ID".into(), id, fields }
+}
 
 fn pick_distinct(rng: &mut Rng, n: usize, pool: &[&str]) -> Vec<String> {
     let mut out: Vec<String> = vec![];
@@ -463,7 +595,23 @@ pub fn gen_header(rng: &mut Rng, odd: bool) -> HHeader {
                 }
             })
             .collect();
-        h.others.push((k, vals));
+        h.others.push((k, Coll::U(vals)));
+    }
+    // structured other records: META (Number / Type / Values raw), PEDIGREE, SAMPLE, any key
+    let n = *rng.pick(&[0usize, 0, 1, 2, 3]);
+    for k in pick_distinct(rng, n, SKEYS) {
+        let n = rng.range(1, 3) as usize;
+        let mut ids = pick_distinct(rng, n, IDS);
+        if odd && rng.chance(1, 4) {
+            ids.push(rng.pick(IDS_ODD).to_string());
+        }
+        let ms: Vec<OMap> = ids.into_iter().map(|id| gen_omap(rng, &k, id, odd)).collect();
+        h.others.push((k, Coll::S(ms)));
+    }
+    if rng.chance(1, 3) && h.others.len() > 1 {
+        let i = rng.below(h.others.len() as u64) as usize;
+        let g = h.others.remove(i);
+        h.others.push(g);
     }
     let ns = *rng.pick(&[0usize, 0, 1, 2, 4]);
     h.samples = pick_distinct(rng, ns, if odd { SAMPLES } else { &SAMPLES[..7] });
@@ -523,6 +671,32 @@ const HP_HEADERS: &[&[&str]] = &[
     &["##fileformat=VCFv4.2", "##x=<y>", "##z=<", "#CHROM\tPOS\tID\tREF\tALT\tQUAL\tFILTER\tINFO"],
     &["##fileformat=VCFv4.2", "#x=y", "#CHROM\tPOS\tID\tREF\tALT\tQUAL\tFILTER\tINFO"],
     &["##fileformat=VCFv4.3", "x=y", "#CHROM\tPOS\tID\tREF\tALT\tQUAL\tFILTER\tINFO"],
+    // structured other records
+    &["##fileformat=VCFv4.3", "##META=<ID=Assay,Type=String,Number=.,Values=[WholeGenome, Exome]>", "##META=<ID=Disease,Type=String,Number=.,Values=[None, Cancer]>", "##SAMPLE=<ID=Blood,Genomes=Germline,Mixture=1.,Description=\"Patient germline genome\">", "##PEDIGREE=<ID=c1,Father=f1,Mother=\"m1\">", "#CHROM\tPOS\tID\tREF\tALT\tQUAL\tFILTER\tINFO"],
+    &["##fileformat=VCFv4.2", "##META=<ID=Assay,Type=String,Number=.,Values=[WholeGenome, Exome]>", "#CHROM\tPOS\tID\tREF\tALT\tQUAL\tFILTER\tINFO"],
+    &["##fileformat=VCFv4.2", "##META=<ID=Assay,Type=String,Number=.,Values=[WholeGenome]>", "##PEDIGREE=<Child=c1,Mother=m1,Father=\"f1\">", "##PEDIGREE=<Derived=d1,Original=o1>", "##PEDIGREE=<ID=i1,Name_0=g0>", "#CHROM\tPOS\tID\tREF\tALT\tQUAL\tFILTER\tINFO"],
+    &["##fileformat=VCFv4.3", "##PEDIGREE=<Child=c1,Mother=m1>", "#CHROM\tPOS\tID\tREF\tALT\tQUAL\tFILTER\tINFO"],
+    &["##fileformat=VCFv4.3", "##PEDIGREE=<ID=c1,Child=c2,Derived=d>", "##PEDIGREE=<ID=c2>", "#CHROM\tPOS\tID\tREF\tALT\tQUAL\tFILTER\tINFO"],
+    &["##fileformat=VCFv4.2", "##PEDIGREE=<Child=c1,ID=c2>", "#CHROM\tPOS\tID\tREF\tALT\tQUAL\tFILTER\tINFO"],
+    &["##fileformat=VCFv4.2", "##PEDIGREE=<Child=c1,Derived=c2>", "#CHROM\tPOS\tID\tREF\tALT\tQUAL\tFILTER\tINFO"],
+    &["##fileformat=VCFv4.2", "##PEDIGREE=<Mother=m,Derived=c2,Father=f>", "##PEDIGREE=<Child=c2>", "#CHROM\tPOS\tID\tREF\tALT\tQUAL\tFILTER\tINFO"],
+    &["##fileformat=VCFv4.3", "##PEDIGREE=<ID=c1>", "##PEDIGREE=<ID=c1>", "#CHROM\tPOS\tID\tREF\tALT\tQUAL\tFILTER\tINFO"],
+    &["##fileformat=VCFv4.3", "##PEDIGREE=<ID=c1,>", "#CHROM\tPOS\tID\tREF\tALT\tQUAL\tFILTER\tINFO"],
+    &["##fileformat=VCFv4.3", "##PEDIGREE=<>", "#CHROM\tPOS\tID\tREF\tALT\tQUAL\tFILTER\tINFO"],
+    &["##fileformat=VCFv4.3", "##META=<ID=a,Values=[x, y],Values=[z]>", "#CHROM\tPOS\tID\tREF\tALT\tQUAL\tFILTER\tINFO"],
+    &["##fileformat=VCFv4.3", "##META=<ID=a,Values=[x, y,k=\"]\">", "##META=<ID=b,Values=[x,k=\"v\">", "##META=<ID=c,Values=\"[q]\",Number=\"1\">", "#CHROM\tPOS\tID\tREF\tALT\tQUAL\tFILTER\tINFO"],
+    &["##fileformat=VCFv4.3", "##META=<Values=[x],ID=a>trailing", "##META=<ID=b>", "##META=x", "#CHROM\tPOS\tID\tREF\tALT\tQUAL\tFILTER\tINFO"],
+    &["##fileformat=VCFv4.3", "##META=<ID=b>", "##META=x", "#CHROM\tPOS\tID\tREF\tALT\tQUAL\tFILTER\tINFO"],
+    &["##fileformat=VCFv4.3", "##x=<ID=a,k=\"v\",j=w>", "##x=<ID=b>", "##y=1", "##x=<ID=c,>", "#CHROM\tPOS\tID\tREF\tALT\tQUAL\tFILTER\tINFO"],
+    &["##fileformat=VCFv4.3", "##x=<ID=a>", "##x=<ID=a>", "#CHROM\tPOS\tID\tREF\tALT\tQUAL\tFILTER\tINFO"],
+    &["##fileformat=VCFv4.3", "##x=<ID=a>", "##x=v", "#CHROM\tPOS\tID\tREF\tALT\tQUAL\tFILTER\tINFO"],
+    &["##fileformat=VCFv4.3", "##x=v", "##x=<ID=a>", "#CHROM\tPOS\tID\tREF\tALT\tQUAL\tFILTER\tINFO"],
+    &["##fileformat=VCFv4.3", "##x=<k=v>", "#CHROM\tPOS\tID\tREF\tALT\tQUAL\tFILTER\tINFO"],
+    &["##fileformat=VCFv4.3", "##x=<ID=a,ID=b>", "#CHROM\tPOS\tID\tREF\tALT\tQUAL\tFILTER\tINFO"],
+    &["##fileformat=VCFv4.3", "##x=<ID=a,k=1,k=2>", "#CHROM\tPOS\tID\tREF\tALT\tQUAL\tFILTER\tINFO"],
+    &["##fileformat=VCFv4.2", "##x=<ID=a,k=\"v\">", "##y=<xID=a>", "##z=<k=v>", "##w=<", "#CHROM\tPOS\tID\tREF\tALT\tQUAL\tFILTER\tINFO"],
+    &["##fileformat=VCFv4.2", "##x=<k=v,ID=a>", "##x=<y>", "#CHROM\tPOS\tID\tREF\tALT\tQUAL\tFILTER\tINFO"],
+    &["##fileformat=VCFv4.3", "##SAMPLE=<ID=s,Description=\"a\\\"b\\\\c\",Genomes=G;H>", "#CHROM\tPOS\tID\tREF\tALT\tQUAL\tFILTER\tINFO"],
     // reserved keys: the definition must be the reserved one of the file format (4.3 / 4.4 / 4.5)
     &["##fileformat=VCFv4.3", "##INFO=<ID=AC,Number=A,Type=Integer,Description=\"d\">", "##FORMAT=<ID=DP,Number=1,Type=Integer,Description=\"d\">", "#CHROM\tPOS\tID\tREF\tALT\tQUAL\tFILTER\tINFO"],
     &["##fileformat=VCFv4.3", "##INFO=<ID=AC,Number=1,Type=Integer,Description=\"d\">", "#CHROM\tPOS\tID\tREF\tALT\tQUAL\tFILTER\tINFO"],
@@ -563,13 +737,12 @@ pub fn gen_hp(rng: &mut Rng, w: &mut CaseWriter, n_mut: usize) {
             match rng.below(4) {
                 0 => { l.remove(i); }
                 1 => { let b = l[i]; l.insert(i, b); }
-                2 => l[i] = *rng.pick(b"<>,=\"\\#\tx1"),
-                _ => l.insert(i, *rng.pick(b"<>,=\"\\#\tx1")),
+                2 => l[i] = *rng.pick(b"<>,=\"\\#\tx1[]"),
+                _ => l.insert(i, *rng.pick(b"<>,=\"\\#\tx1[]")),
             }
         }
-        // keep the text free of LF / CR (line splitting is not part of this model) and off the
-        // unmodelled structured lines
-        if ls.iter().any(|l| l.contains(&b'\n') || l.contains(&b'\r') || l.starts_with(b"##META") || l.starts_with(b"##PEDIGREE")) {
+        // keep the text free of LF / CR (line splitting is not part of this model)
+        if ls.iter().any(|l| l.contains(&b'\n') || l.contains(&b'\r')) {
             continue;
         }
         w.push("hp", vec![enc(&ls)]);
